@@ -99,7 +99,7 @@ HELPERS = (("h1", 1), ("h2", 2), ("ident", 1), ("h3", 1), ("hl", 1), ("hshadow",
 # binder names that collide with captured names.  Names that occur FREE in a helper body (h1, h2 in h3; G2 in hl)
 # are kept out: a call-site binder of that name would capture them (known finding, see below); names bound INSIDE a
 # helper (v in hsel) are allowed since the fix that renames such locals
-SHADOW_NAMES = ("G1", "c1", "ident", "x", "a", "q", "Cfg", "e", "e", "j", "t", "v", "v")
+SHADOW_NAMES = ("G1", "c1", "ident", "x", "a", "q", "Cfg", "e", "e", "j", "t", "v", "v", "h1", "G2", "h2")
 
 
 def comp_template(rng) -> str:
@@ -482,12 +482,13 @@ def run_same_callable_twice(ctx, n: int):
             srcmod.drop_module(mod)
 
 
-KNOWN_CAPTURE_SCENARIOS = [
-    # a binder at the call site is named like a name that is FREE in the helper body
-    ("def hk(x): return h1(x) * 2", "lambda e: (lambda q, h1: hk(e.met))(1, 2)", "e"),
-]
+KNOWN_CAPTURE_SCENARIOS = []
 # repaired (fix: locals of an inlined body that an argument mentions are renamed): must hold, no key
 FIXED_CAPTURE_SCENARIOS = [
+    # a binder at the call site is named like a name that is FREE in the helper body (repaired: such a helper is left by name)
+    ("def hk(x): return h1(x) * 2", "lambda e: (lambda q, h1: hk(e.met))(1, 2)", "e"),
+    ("def hk(x): return h2(x, G2) + h1(x)", "lambda e: e.nums.Select(lambda G2: hk(G2))", "e"),
+    ("def hk(x): return [h1(v) for v in x.nums]", "lambda e: [hk(e) for h1 in e.nums]", "e"),
     # an argument mentions a name that a lambda INSIDE the helper binds
     ("def hk(x): return x.jets.Select(lambda j: j.pt + x.met)", "lambda j: hk(j)", "j"),
     ("def hk(x, y): return x.trks.Select(lambda e: e.pt + y).Sum()", "lambda e: e.jets.Select(lambda j: hk(j, e.met * 100)).Sum()", "e"),
